@@ -332,6 +332,7 @@ func WriteEvidence(opt Options, rr *RunResult, v *Verdict, wall float64, level s
 	tb = append(tb, rr.Trusted...)
 	tb = append(tb, rr.Axioms...)
 	tb = append(tb, rr.Inputs...)
+	tb = append(tb, rr.Relies...)
 	tb = append(tb, "alias scan: common.Vote, nns.Transfer, nns.SetAdmin are exempted by name after inspection (DESIGN.md 2.3); the scan is syntactic and conservative")
 	{ // no duplicates (a module may be generated as own and as used module)
 		seen := map[string]bool{}
